@@ -4,13 +4,20 @@ spec/Restrict.tla gives every terminal a '+' and a '-' value (admissible environ
 continuity the property assumes), defines the meaning M of an interior-facet integrand, transcribes
 RestrictionPropagator handler by handler (P) and lets TLC check, for every term its state machine
 builds, that an accepted valid integrand keeps its meaning and comes out with every side-dependent
-terminal directly below exactly one restriction, and that invalid integrands are rejected.
+terminal directly below exactly one restriction, that a double restriction is always rejected and a
+missing one whenever the propagator is given the default-restriction map.
 
-The conformance step builds every dumped term on real ufl, calls the real apply_restrictions the way
-FormData does for dS integrals (default_restrictions = {mesh: '+'} / None), and compares: accept /
-raise with the model verdict, the value of input and output (vf/sem.py under the same two-sided
-environments) with each other and with the predicted meaning, and the structure of the real output
-with the predicted one.
+The conformance step builds every dumped (term, mode) on real ufl and
+  * calls the real apply_restrictions the way FormData does for dS integrals
+    (default_restrictions = {mesh: '+'} / None) and compares accept / raise with the model verdict, the
+    value of input and output (vf/sem.py under the same two-sided environments) with each other and
+    with the predicted meaning, and the structure of the real output with the predicted one;
+  * sends scalar integrands through compute_form_data(expr*dS, do_apply_restrictions=True,
+    do_apply_default_restrictions=True/False) and demands the property as stated: accepted exactly
+    when the integrand has a two-sided meaning, value and structure preserved.
+
+Slices (bounded instances: terminal pool, atoms, constructor levels) on the same mesh kind share one
+TLC run (constant Configs); deep random terms come from TLC's simulation mode, seeded by ctx.seed.
 """
 
 from __future__ import annotations
@@ -84,8 +91,9 @@ class Slice:
     """One bounded instance (a record of the constant Configs of spec/Restrict.tla).  atoms: operands
     available from the start, written "g", "g+", "g-", "grad(g)+", "rv(g)-" (default: the terminals)."""
 
-    def __init__(self, name, terms, levels, maxnodes=None, affine=True, maxdead=0, simulate=None, depth=None, atoms=None):
+    def __init__(self, name, terms, levels, maxnodes=None, affine=True, maxdead=0, simulate=None, depth=None, atoms=None, run=None):
         self.name = name
+        self.run = run or ("affine" if affine else "p2mesh")
         self.terms = list(terms)
         self.atoms = list(atoms) if atoms is not None else list(terms)
         self.levels = [sorted(l) for l in levels]
@@ -133,10 +141,9 @@ class Run:
 def group(sls):
     """Slices -> runs: exhaustive slices of one mesh kind together, every simulation on its own."""
     runs = []
-    for aff in (True, False):
-        ex = [s for s in sls if s.affine == aff and not s.simulate]
-        if ex:
-            runs.append(Run("affine" if aff else "p2mesh", ex, aff))
+    for label in sorted({s.run for s in sls if not s.simulate}):
+        ex = [s for s in sls if s.run == label and not s.simulate]
+        runs.append(Run(label, ex, ex[0].affine))
     for s in sls:
         if s.simulate:
             runs.append(Run(s.name, [s], s.affine, s.simulate, s.depth))
@@ -824,30 +831,31 @@ def slices(tier):
     ]
     if q:
         out += [
-            Slice("arith", ["f1", "g", "c", "two"], [ARITH | {"R", "var"}, {"R", "add", "mul"}], atoms=["f1", "g", "c", "two", "g+", "g-", "f1-"]),
+            Slice("arith", ["f1", "g", "c", "two"], [ARITH | {"R", "var"}, {"R", "mul"}], atoms=["f1", "g", "c", "two", "g+", "g-"]),
             Slice("geometry", GEO, [{"R", "dot", "mul", "idx", "jumpn"}, {"R", "add", "neg"}], atoms=["n", "x", "u2", "w", "h", *pm("n", "w"), "h-", "a-"]),
-            Slice("grad", GRD, [{"R", "dot", "idx", "var", "grad", "rv"}, {"R", "mul", "avg"}], atoms=["f2", "g", "v", "n", *pm("grad(f2)", "grad(g)"), "grad(v)-", "rv(g)+", "rv(v)-", "n-", "v+", "rv(f2)"]),
+            Slice("grad", GRD, [{"R", "dot", "idx", "var", "grad", "rv"}, {"R", "mul", "avg"}], atoms=["f2", "g", "v", "n", "grad(f2)+", "grad(g)-", "grad(v)-", "rv(g)+", "rv(v)-", "n-", "rv(f2)"]),
             Slice("cond", ["f1", "g", "h"], [{"cond", "R"}, {"R"}], atoms=["f1", "g", "g+", "g-", "h-"]),
-            Slice("two-branch", ["f1", "g", "n"], [{"R", "idx"}, {"R", "idx"}, {"add", "mul", "div"}], maxdead=1, atoms=["f1", "g", "n", "g+"]),
+            Slice("two-branch", ["f1", "g", "n"], [{"R", "idx"}, {"R", "idx"}, {"add", "div"}], maxdead=1, atoms=["f1", "g", "n"]),
             Slice("deep", DEEPT, [DEEP | {"use"}] + [DEEP] * 4, maxnodes=5, simulate=40, depth=7, atoms=DEEPA),
         ]
     else:
         out += [
             # scalar arithmetic over continuous / discontinuous / constant / literal operands
-            Slice("arith", ["f1", "g", "c", "two"], [ARITH | {"R", "var"}, ARITH | {"R"}, {"R", "add", "mul"}], atoms=["f1", "g", "c", "two", *pm("f1", "g")]),
+            Slice("arith", ["f1", "g", "c", "two"], [ARITH | {"R", "var"}, ARITH | {"R"}], atoms=["f1", "g", "c", "two", *pm("f1", "g")]),
+            Slice("arith3", ["f1", "g", "c"], [{"R", "mul", "div"}, {"R", "add", "mul"}, {"R", "add"}], atoms=["f1", "g", "c", "g+", "g-"]),
             # geometry: normal, coordinate, cell and facet quantities with vectors
-            Slice("geometry", GEO, [{"R", "dot", "mul", "idx", "jumpn"}, {"R", "add", "mul", "neg", "dot"}, {"R", "add"}], atoms=[*GEO, *pm("n", "w", "h"), "x-", "u2-", "a-"]),
-            Slice("geometry-p2mesh", ["n", "x", "w", "h"], [{"R", "dot", "mul", "idx", "jumpn"}, {"R", "add", "neg", "dot"}, {"R", "mul"}], affine=False, atoms=["n", "x", "w", "h", *pm("n", "w"), "h+", "x-"]),
+            Slice("geometry", GEO, [{"R", "dot", "mul", "idx", "jumpn"}, {"R", "add", "mul", "neg", "dot"}], atoms=[*GEO, *pm("n", "w", "h"), "x-", "u2-", "a-"]),
+            Slice("geometry-p2mesh", ["n", "x", "w", "h"], [{"R", "dot", "mul", "idx", "jumpn"}, {"R", "add", "neg", "dot"}, {"R"}], affine=False, atoms=["n", "x", "w", "h", *pm("n", "w"), "h+", "x-"]),
             # gradients, reference values, arguments
             Slice("grad", GRD, [{"R", "dot", "mul", "idx", "var", "grad", "rv"}, {"R", "mul", "add", "jumpn", "avg", "dot"}], atoms=[*GRD, *pm("grad(f2)", "grad(g)", "grad(v)", "rv(g)", "rv(v)", "n", "v"), "rv(f2)", "rv(f2)-"]),
             # conditionals
-            Slice("cond", ["f1", "g", "h"], [{"cond", "R"}, {"R", "add"}], atoms=["f1", "g", "h", *pm("f1", "g", "h")]),
-            Slice("cond-nested", ["f1", "g", "n"], [{"idx", "R"}, {"cond"}, {"R", "cond", "mul"}], atoms=["f1", "g", "n", "g+", "g-", "n-"]),
+            Slice("cond", ["f1", "g", "h"], [{"cond", "R"}, {"R", "add"}], atoms=["f1", "g", "h", *pm("g", "h"), "f1-"], run="affine-b"),
+            Slice("cond-nested", ["f1", "g"], [{"R"}, {"cond"}, {"R"}], atoms=["f1", "g", "g+", "g-"], run="affine-b"),
             # two constructed operands
-            Slice("two-branch", ["f1", "g", "n", "w"], [{"R", "idx"}, {"R", "dot", "mul"}, {"add", "mul", "div"}, {"R", "cond"}], maxdead=1, atoms=["f1", "g", "n", "w", "g+", "n-"]),
+            Slice("two-branch", ["f1", "g", "n", "w"], [{"R", "idx"}, {"R", "dot", "mul"}, {"add", "mul", "div"}], maxdead=1, atoms=["f1", "g", "n", "w", "g+", "n-"], run="affine-b"),
             # deeper random terms
-            Slice("deep", DEEPT, [DEEP | {"use"}] + [DEEP] * 5, maxnodes=6, simulate=2000, depth=8, atoms=DEEPA),
-            Slice("deep-p2mesh", ["f2", "g0", "w", "vd", "x", "n", "h", "a", "c"], [DEEP | {"use"}] + [DEEP] * 5, maxnodes=6, affine=False, simulate=1000, depth=8, atoms=["f2", "x", "a", "c", "g0", "n", *pm("g0", "w", "vd", "n", "h"), "f2-"]),
+            Slice("deep", DEEPT, [DEEP | {"use"}] + [DEEP] * 5, maxnodes=6, simulate=1000, depth=8, atoms=DEEPA),
+            Slice("deep-p2mesh", ["f2", "g0", "w", "vd", "x", "n", "h", "a", "c"], [DEEP | {"use"}] + [DEEP] * 5, maxnodes=6, affine=False, simulate=500, depth=8, atoms=["f2", "x", "a", "c", "g0", "n", *pm("g0", "w", "vd", "n", "h"), "f2-"]),
         ]
     return out
 
@@ -897,9 +905,9 @@ def conform(ctx, run, envs, recs, pool, form_every, best):
         found += f
     for fp, what, rec in found:
         ctx.count("findings:" + fp)
-        size = len(json.dumps(rec["term"]))
-        if fp not in best or size < best[fp][0]:
-            best[fp] = (size, what, {"world": runj, "envs": envs, "rec": rec})
+        key = (len(json.dumps(rec["term"])), run.name, json.dumps(rec["term"]))
+        if fp not in best or key < best[fp][0]:
+            best[fp] = (key, what, {"world": runj, "envs": envs, "rec": rec})
     for r in recs:
         if r["term"][0] != "T":
             ctx.distinct(json.dumps([run.name, r["cfg"], r["term"], r["d"]]))
@@ -944,23 +952,26 @@ def run(ctx, args):
     if only:
         sls = [s for s in sls if s.name in only.split(",")]
     runs = group(sls)
-    from concurrent.futures import ThreadPoolExecutor
+    from concurrent.futures import ThreadPoolExecutor, as_completed
     from multiprocessing import get_context
 
+    tops = set()
     pool = None if quick else get_context("fork").Pool(6)
     best = {}  # fingerprint -> smallest failing case over all slices
     try:
-        # the big exhaustive run gets two TLC workers and is replayed last (the others meanwhile)
-        runs.sort(key=lambda r: len(r.slices))
-        with ThreadPoolExecutor(3) as ex:
-            futs = [ex.submit(run_tlc, r, ctx.seed, 2 if len(r.slices) > 1 else 1, 900) for r in reversed(runs)][::-1]
-            for r, fut in zip(runs, futs):
+        # the big exhaustive runs start first (two TLC workers each); each run is replayed when it ends
+        runs.sort(key=lambda r: -len(r.slices))
+        with ThreadPoolExecutor(3 if quick else 2) as ex:
+            futs = {ex.submit(run_tlc, r, ctx.seed, 2 if len(r.slices) > 1 else 1, 900): r for r in runs}
+            for fut in as_completed(futs):
+                r = futs[fut]
                 envs, res = fut.result()
                 ctx.add_tlc(res)
                 if res.outcome != "ok":
-                    tail = "\n".join(res.stdout.splitlines()[-40:])
+                    tail = "\n".join([l for l in res.stdout.splitlines() if not l.startswith('"{')][-40:])
                     raise MachineryError(f"TLC run {r.name}: {res.outcome} {res.violated}\n{tail}")
                 recs = records_of(res)
+                tops |= {x["term"][0] for x in recs}
                 print(f"  run {r.name}: {'simulation' if r.simulate else 'exhaustive'} states={res.distinct} records={len(recs)} tlc={res.wall:.1f}s", flush=True)
                 conform(ctx, r, envs, recs, pool, 3 if quick else 4, best)
                 if len(ctx.cov["samples"]) < 5:
@@ -972,7 +983,10 @@ def run(ctx, args):
     # one violation per fingerprint (the smallest failing term), the rest is counted
     for fp, (_, what, doc) in sorted(best.items()):
         ctx.violation(fp, what, doc)
-    # vacuity: every verdict class must have been exercised on the real code
+    # vacuity: every constructor on top of some term, every verdict class exercised on the real code
+    missing_ops = {"T", "grad", "rv", "R", "var", "neg", "add", "mul", "div", "dot", "idx", "cond", "jump", "jumpn", "avg"} - tops
+    if missing_ops and not only:
+        raise MachineryError(f"vacuous run: constructors never applied last: {sorted(missing_ops)}")
     tot = {}
     for s in ctx.cov["slices"]:
         for k, v in s["status"].items():
